@@ -296,7 +296,13 @@ def check(ctx):
     two = [(a, b) for a in (E19 if quick else range(256)) for b in (E19 if quick else range(256))]
     three = list(itertools.product(E19, repeat=3))
     four = list(itertools.product(E19, repeat=4)) if not quick else []
-    allseq = one + two + three + four
+    # structurally complete multi-byte forms at the boundaries of every decoder range: each 4-byte lead with continuation bytes at
+    # the edges of the overlong / surrogate / beyond-U+10FFFF windows, and the obsolete 5- and 6-byte forms
+    conts = (0x80, 0x8F, 0x90, 0x9F, 0xA0, 0xBF)
+    struct4 = [(l,) + c for l in (0xF0, 0xF1, 0xF3, 0xF4, 0xF5, 0xF7) for c in itertools.product(conts, repeat=3)]
+    struct56 = [(l,) + c for l in (0xF8, 0xFB) for c in itertools.product((0x80, 0x88, 0xBF), repeat=4)] + \
+               [(l,) + c for l in (0xFC, 0xFD) for c in itertools.product((0x80, 0x84, 0xBF), repeat=5)]
+    allseq = one + two + three + four + struct4 + struct56
     for kind in ("in-comment", "in-string", "file-start"):
         for i in range(0, len(allseq), 256):
             ij.append((kind, allseq[i:i + 256]))
